@@ -250,6 +250,29 @@ def run(ck, w):
                     rules.witness(bk, heads[0], removed_nodes=reporters), "%s:bb%d" % (bk.file, skipped[0]))
         else:
             ck.ok(o, "%d reporting site(s)" % len(reporters), instances=len(reporters))
+    o = ck.ob("C18.5d", "copy_entry hands copy_file the basis entry it was itself given, whatever its kind: a path that changed kind is 'changed', "
+                        "not 'added'")
+    ceb = w.body("backup::BackupWriter::copy_entry")
+    cfc = rules.creators_of(ceb, "backup::BackupWriter::copy_file")
+    if not cfc:
+        ck.fail(o, ceb.name, "anchor-missing", "copy_entry does not call copy_file")
+    else:
+        bad_ = []
+        for e in cfc:
+            found_ = False
+            for a in e.args[1:]:
+                oo = flow.origins_x(lib, ceb, a)
+                if any(x[0] == "param" and x[1] == "basis_entry" for x in oo):
+                    found_ = True
+                    others = [x for x in oo if x[0] in ("enum", "agg", "const", "call")]
+                    if others:
+                        bad_.append((e, flow.origin_summary(oo)))
+            if not found_:
+                bad_.append((e, "no argument derives from basis_entry"))
+        if bad_:
+            ck.fail(o, ceb.name, "basis entry replaced or filtered before copy_file", "copy_file's basis argument derives from %s" % (bad_[0][1],), bad_[0][0].site())
+        else:
+            ck.ok(o, sites=[e.site() for e in cfc])
     cfb = w.body("backup::BackupWriter::copy_file")
     o = ck.ob("C18.5b", "copy_file: 'added' only without a basis entry; 'unchanged' only if the new entry equals the basis entry; otherwise 'changed'")
     added = events_of(lib, cfb, "change::EntryChange::added")
